@@ -77,6 +77,10 @@ type refSource struct {
 	Rsize    int
 	IOMode   string // global
 	Feat     map[string]bool
+	// label names for the label-leak class (see c05_test.go): labels written after the last line of a block,
+	// and labels written directly on a macro use or directly before the entry directive
+	Trailing map[string]bool
+	Lost     map[string]bool
 }
 
 // refUnsupported is returned for text outside the subset the reference gives a meaning to.
@@ -121,13 +125,16 @@ func isIdent(s string) bool {
 
 // parseSource reads the text.
 func parseSource(text string) (*refSource, error) {
-	rs := &refSource{Sections: map[string]*refSection{}, Macros: map[string]*refMacro{}, Feat: map[string]bool{}}
+	rs := &refSource{Sections: map[string]*refSection{}, Macros: map[string]*refMacro{}, Feat: map[string]bool{}, Trailing: map[string]bool{}, Lost: map[string]bool{}}
 	var curSec *refSection
 	var curMac *refMacro
 	var pending []refItem // labels waiting for the next line of the current block
 	flushTrailing := func() {
 		if len(pending) > 0 {
 			rs.Feat["trailing-label"] = true
+			for _, l := range pending {
+				rs.Trailing[l.Name] = true
+			}
 			// a label after the last instruction denotes the address past the end; kept as items so
 			// that duplicates are seen, never a legal jump target
 			if curSec != nil {
@@ -314,6 +321,9 @@ func parseSource(text string) (*refSource, error) {
 				it = refItem{Kind: itEntry, Name: args[0], Line: ln + 1}
 				if len(pending) > 0 {
 					rs.Feat["label-before-entry"] = true
+					for _, l := range pending {
+						rs.Lost[l.Name] = true
+					}
 				}
 			}
 			if curSec != nil {
@@ -465,14 +475,14 @@ type refIns struct {
 }
 
 type refProg struct {
-	Section  string
-	Ins      []refIns
-	Labels   map[string]int
-	Entry    int
-	NRegs    int
+	Section     string
+	Ins         []refIns
+	Labels      map[string]int
+	Entry       int
+	NRegs       int
 	Ins_, Outs_ map[int]bool // ports used (statically)
-	LabelFirst bool         // a label sits before the first instruction
-	MultiLabel bool         // some instruction carries several labels
+	LabelFirst  bool         // a label sits before the first instruction
+	MultiLabel  bool         // some instruction carries several labels
 }
 
 func parseReg(s string) (int, bool) {
@@ -602,8 +612,14 @@ func (rs *refSource) sectionFeatures(sec *refSection, feat map[string]bool) {
 	prevLineUse := false
 	for i, it := range sec.Items {
 		if it.Kind == itLabel {
-			if i+1 < len(sec.Items) && isUse(sec.Items[i+1]) {
+			// every label of a run of labels that ends on a macro use is written on that use
+			j := i + 1
+			for j < len(sec.Items) && sec.Items[j].Kind == itLabel {
+				j++
+			}
+			if j < len(sec.Items) && isUse(sec.Items[j]) {
 				feat["macro:label-on-use"] = true
+				rs.Lost[it.Name] = true
 			}
 			continue
 		}
@@ -862,15 +878,15 @@ type refChan struct {
 }
 
 type refNet struct {
-	Src     *refSource
-	Progs   []*refProg // per CP
-	Chans   []*refChan
-	InChan  [][]int // per CP, per input port: channel index or -1
-	OutChan [][]int
-	NIn     int // external inputs / outputs of the machine
-	NOut    int
-	ExtIn   []int // channel index per external input
-	ExtOut  []int
+	Src      *refSource
+	Progs    []*refProg // per CP
+	Chans    []*refChan
+	InChan   [][]int // per CP, per input port: channel index or -1
+	OutChan  [][]int
+	NIn      int // external inputs / outputs of the machine
+	NOut     int
+	ExtIn    []int // channel index per external input
+	ExtOut   []int
 	MaxDepth int
 }
 
